@@ -21,7 +21,7 @@ Conventions
 * `Point.__init__`: `assert curve.contains_point(x, y)` is modelled (`mkPoint`).  The second assertion
   (`curve.cofactor() != 1 and order` ⟹ `self * order == INFINITY`) can never fail: `Point.__mul__` returns INFINITY at
   once when `e % order == 0`, which holds for e = order.  So it is omitted (no behaviour lost).
-* an attribute looked up on INFINITY (`INFINITY.scale()`, `(-INFINITY)`) is `attributeError`.
+* an attribute looked up on INFINITY (`INFINITY.scale()`) is `attributeError`; `-INFINITY` is INFINITY (fix F12).
 -/
 namespace Curve
 
@@ -208,7 +208,7 @@ def affDouble (P : AffPt) : Res Pt := do
   let R ← mkPoint P.curve x3 y3 none
   .ok (.aff R)
 
-/-- `Point.__neg__` (the order is dropped) -/
+/-- `Point.__neg__` on a point other than INFINITY (the order is dropped); INFINITY: see `ptNeg` -/
 def affNeg (P : AffPt) : Res AffPt := mkPoint P.curve P.x (P.curve.p - P.y) none
 
 /-- `Point.__add__` (a `PointJacobi` operand makes Python fall back to `PointJacobi.__radd__`) -/
@@ -242,9 +242,9 @@ def ptAdd : Pt → Pt → Res Pt
   | .infinity, .jac Q => pjAdd Q .infinity
   | .aff P, o => affAdd P o
 
-/-- unary minus on any point value -/
+/-- unary minus on any point value (`Point.__neg__` returns INFINITY for INFINITY: fix F12) -/
 def ptNeg : Pt → Res Pt
-  | .infinity => .error .attributeError
+  | .infinity => .ok .infinity
   | .jac P => .ok (.jac (pjNeg P))
   | .aff P => do let R ← affNeg P; .ok (.aff R)
 
